@@ -5,6 +5,7 @@ package xmpp
 import (
 	"fmt"
 	"math/big"
+	"strings"
 	"testing"
 	"time"
 
@@ -48,6 +49,66 @@ func c19attemptClass(n int64) string {
 	return "n-huge"
 }
 
+// c19mixed: the two entry points and reset on one object, in every order: all sequences of up to `depth` operations
+// over {wait (duration()), query n (durationForAttempt(n)) for n in 0, 3, 40, 1000, reset}. A wait is the k-th since
+// the last reset whatever was queried in between; a query depends on its argument alone.
+func c19mixed(c *hx.Ctx, base, factor, cp, depth int) {
+	eb, ef, ec := base, factor, cp
+	if eb == 0 {
+		eb = 20
+	}
+	if ef == 0 {
+		ef = 2
+	}
+	if ec == 0 {
+		ec = 180000
+	}
+	ops := []string{"wait", "q0", "q3", "q40", "q1000", "reset"}
+	qn := map[string]int{"q0": 0, "q3": 3, "q40": 40, "q1000": 1000}
+	cfg := fmt.Sprintf("base=%d factor=%d cap=%d", base, factor, cp)
+	var rec func(path []string)
+	rec = func(path []string) {
+		if len(path) > 0 {
+			b := &backoff{NoJitter: true, Base: base, Factor: factor, Cap: cp}
+			k := int64(0)
+			for i, op := range path {
+				var d, want time.Duration
+				switch op {
+				case "wait":
+					d = b.duration()
+					want = time.Duration(c19ref(eb, ef, ec, k).Int64()) * time.Millisecond
+					k++
+				case "reset":
+					b.reset()
+					k = 0
+					continue
+				default:
+					d = b.durationForAttempt(qn[op])
+					want = time.Duration(c19ref(eb, ef, ec, int64(qn[op])).Int64()) * time.Millisecond
+				}
+				if i == len(path)-1 {
+					c.Step(1)
+					c.Eval(fmt.Sprintf("%s %v => %d", cfg, path, d))
+					if d != want {
+						kind := "wait"
+						if op != "wait" {
+							kind = "query"
+						}
+						c.Fail("C19|mixed-use|"+kind, cfg+" "+strings.Join(path, ","), "%s: after %v the last operation gave %v, reference %v", cfg, path[:len(path)-1], d, want)
+					}
+				}
+			}
+		}
+		if len(path) == depth {
+			return
+		}
+		for _, op := range ops {
+			rec(append(append([]string{}, path...), op))
+		}
+	}
+	rec(nil)
+}
+
 func TestVerifC19(t *testing.T) {
 	attempts := []int64{}
 	for i := int64(0); i <= 80; i++ {
@@ -80,6 +141,17 @@ func TestVerifC19(t *testing.T) {
 				c19config(c, base, factor, caps, small)
 			}
 			c.Sample(map[string]any{"base": base, "factors": "1..5", "caps": "1..64", "attempts": small})
+		}})
+	}
+	for _, cfgv := range [][3]int{{0, 0, 0}, {20, 2, 180000}, {1000, 3, 5000}, {7, 10, 100}, {1, 2, 1 << 30}} {
+		cfgv := cfgv
+		scs = append(scs, hx.Scenario{Name: fmt.Sprintf("mixed/base=%d/factor=%d/cap=%d", cfgv[0], cfgv[1], cfgv[2]), Run: func(c *hx.Ctx) {
+			depth := 6
+			if hx.Thorough() {
+				depth = 7
+			}
+			c19mixed(c, cfgv[0], cfgv[1], cfgv[2], depth)
+			c.Sample(map[string]any{"config": cfgv, "history": "wait,wait,q1000,wait,reset,wait"})
 		}})
 	}
 	if hx.Main("C19", scs) == 2 {
